@@ -44,6 +44,12 @@ def templates():
     T["closure-called-in-loop"] = main("    def inner(k: int):\n        {X}\n        return k\n    acc = 0\n    i = 0\n    for i in range(n):\n        acc = acc + inner(i)\n    return acc\n")
     mk = "@move\ndef mk(m: int):\n" + PRO + "    def inner(k: int):\n        {X}\n        return k + m\n    return inner\n\n"
     T["closure-returned-then-called"] = main("    f = mk(n)\n    r = f(n)\n", mk)
+    # the result depends on a spec constant, so that an injection pass always has something to replace (also in a quiet kernel)
+    T["closure-returned-then-called-result-uses-spec-constant"] = main(
+        "    kq = spec.get_int_constant(constant_id=\"rows\")\n    f = mk(n)\n    r = f(n)\n    {X}\n    return r + kq\n", mk)
+    T["subroutine-in-loop-result-uses-spec-constant"] = main(
+        "    kq = spec.get_int_constant(constant_id=\"rows\")\n    acc = 0\n    i = 0\n    for i in range(n):\n        acc = acc + sub(i)\n    return acc + kq\n",
+        "@move\ndef sub(m: int):\n" + PRO + "    {X}\n    return m\n\n")
     T["closure-never-called"] = main("    def inner(k: int):\n        {X}\n        return k\n    return inner\n")
     two = ("@move\ndef pick(c: bool):\n    def a(k: int):\n        return k\n    def b(k: int):\n        return k + 1\n    if c:\n        return a\n    return b\n\n")
     T["after-dynamic-call"] = main("    g = pick(c)\n    r = g(n)\n    {X}\n", two)
@@ -85,15 +91,20 @@ def templates():
     return T
 
 
-def define_template(tsrc, stext):
-    """-> (main method, source text shown in replays)"""
+def _decorate_main(src, main_dec):
+    k = src.rindex("@move\ndef main(")
+    return src[:k] + "@move" + main_dec + src[k + 5:]
+
+
+def define_template(tsrc, stext, main_dec="", **extra):
+    """-> (main method, source text shown in replays); main_dec: decorator options of the LAST main kernel"""
     if isinstance(tsrc, tuple):
         inner_src = TW + tsrc[1].replace("{X}", stext)
         inner = [v for k, v in kernels.define(inner_src).items() if k in ("prepare", "main")][0]
-        outer_src = TW + tsrc[2].replace("{X}", stext)
-        return kernels.define(outer_src, lib_prepare=inner)["main"], "# lib_prepare is:\n" + inner_src + "\n# then:\n" + outer_src
-    src = TW + tsrc.replace("{X}", stext)
-    return kernels.define(src)["main"], src
+        outer_src = _decorate_main(TW + tsrc[2].replace("{X}", stext), main_dec)
+        return kernels.define(outer_src, lib_prepare=inner, **extra)["main"], "# lib_prepare is:\n" + inner_src + "\n# then:\n" + outer_src
+    src = _decorate_main(TW + tsrc.replace("{X}", stext), main_dec)
+    return kernels.define(src, **extra)["main"], src
 
 
 ARGS = [(n, c) for n in (0, 1, 2) for c in (False, True)]
@@ -320,6 +331,29 @@ def run(ctx):
             if quiet_graph and ans != "False":
                 ctx.fail({"kind": "quiet-kernel-not-false", "position": tname, "answer": ans}, rep,
                          f"a kernel without any device-visible statement or dynamic call is answered {ans} (position: {tname})")
+            # the same kernel after spec injection - compiled with the spec, and injected after it had been compiled (a kernel that already
+            # carries the hints of an earlier compilation): injecting constants adds neither device statements nor dynamic calls
+            for variant in ("compiled with arch_spec", "InjectSpecsPass applied after compilation"):
+                try:
+                    if variant == "compiled with arch_spec":
+                        m2 = define_template(tsrc, stext, main_dec="(arch_spec=S)", S=S)[0]
+                    else:
+                        from bloqade.shuttle.passes.inject_spec import InjectSpecsPass
+                        from bloqade.shuttle.prelude import move as _move
+                        m2 = define_template(tsrc, stext)[0]
+                        InjectSpecsPass(_move, arch_spec=S)(m2)
+                    ans2 = query(m2)
+                except Exception as e:
+                    ans2 = f"definition error {type(e).__name__}"
+                ctx.evaluations += 1
+                ctx.hist("answer after spec injection", f"{'acts' if acting else 'never acts'} -> {ans2}")
+                rep2 = dict(rep, variant=variant)
+                if acting and ans2 == "False":
+                    ctx.fail({"kind": "false-for-acting-kernel", "position": tname, "variant": variant}, rep2,
+                             f"{variant}: has_quantum_runtime answers False although the kernel performs {sname} for arguments {acting[0]} (position: {tname})")
+                if quiet_graph and ans == "False" and ans2 != "False":
+                    ctx.fail({"kind": "quiet-kernel-not-false", "position": tname, "answer": ans2, "variant": variant}, rep2,
+                             f"{variant}: a kernel without any device-visible statement or dynamic call (answered False before the injection) is answered {ans2} (position: {tname})")
             if acting:
                 ctx.nt((tname, sname))
             prog = clist([f"({cstr(k)}, {v})" for k, v in table.items()])
@@ -361,4 +395,14 @@ def replay(data):
     table, seen = {}, {}
     whole = abstract(m, table, seen) + " ".join(str(v) for v in table.values())
     quiet = "RDev" not in whole and "RCallLam None" not in whole
+    if inp.get("variant") and inp.get("position") in templates():
+        if inp["variant"] == "compiled with arch_spec":
+            m2 = define_template(templates()[inp["position"]], stmts[inp["statement"]], main_dec="(arch_spec=S)", S=S)[0]
+        else:
+            from bloqade.shuttle.passes.inject_spec import InjectSpecsPass
+            from bloqade.shuttle.prelude import move as _move
+            m2 = define_template(templates()[inp["position"]], stmts[inp["statement"]])[0]
+            InjectSpecsPass(_move, arch_spec=S)(m2)
+        ans2 = query(m2)
+        return (bool(acting) and ans2 == "False") or (quiet and ans == "False" and ans2 != "False"), f"acts for {acting[:2]}; answer {ans}, after injection {ans2}"
     return (bool(acting) and ans == "False") or (quiet and ans != "False"), f"acts for {acting[:2]}; answer {ans}"
